@@ -5,6 +5,8 @@ Import ListNotations.
 From Zn.gen Require Import GenC04NumDfa GenC04IdRange GenC04Tokens.
 From Zn.model Require Import NumDfa IdRange Tokenize TokSpec TokDoc.
 From Zn.proofs Require Import NumDfaProofs IdRangeProofs TokenizeProofs.
+From Zn.proofs Require SegmentationProofs.
+Module Seg := SegmentationProofs.
 Open Scope Z_scope.
 Local Notation KW := (parse_keyword g_kw_tree).
 
@@ -98,8 +100,7 @@ Print Assumptions C04_keyword_cut_first.
    NO documented keyword starts at any later position inside it, it ends exactly where a stop condition holds (white space,
    a keyword, a comment start, a marker or the end of text), and it does not end with '/'.
    C04_segmentation_partial: together with C04_keyword_cut_first and C04_kw_match_longest this is the greedy left-to-right
-   segmentation token by token. The single statement [forall s over the alphabet, fst (lex s) = greedy_segment s] for a second,
-   independently written scanner is NOT proved (left undone); the per-run differential check compares whole token streams. *)
+   segmentation token by token; the single whole-stream statement is C04_segmentation below. *)
 Theorem C04_segmentation_partial : forall c r pos ty s e lit r',
   parse_identifier KW (c :: r) pos = TTok ty s e lit r' ->
   exists taken, r = taken ++ r' /\ lit = c :: taken /\ ty = g_TypeIdentifier /\ s = pos /\ e = pos + 1 + Z.of_nat (length taken)
@@ -109,6 +110,52 @@ Theorem C04_segmentation_partial : forall c r pos ty s e lit r',
     /\ last lit 0 <> g_SlashOp.
 Proof. exact identifier_token_spec. Qed.
 Print Assumptions C04_segmentation_partial.
+
+(* THE WHOLE STREAM, as one statement: for EVERY list of code points the implementation model's lexer returns exactly the
+   greedy left-to-right segmentation — tokens, positions, literals and the way the run ends — computed by a second scanner
+   [greedy_segment] (proofs/SegmentationProofs.v) written from the property text with declarative notions only (the longest word
+   of a table that starts here; the maximal run before the first break; break = end of text, white space, marker, a
+   documented keyword, // /* /=), without the implementation's helper functions.  No guard.  What the specification had
+   to spell out beyond the one-line property text is listed in the header of that file (a name also stops before `/=`; a
+   non-identifier character inside a run makes the text invalid there; + - * / are operators only before a delimiter and
+   the end of text is not one; an unterminated /* comment runs to the end of text). *)
+Theorem C04_segmentation : forall s, lex_impl s = Seg.greedy_segment s.
+Proof. exact Seg.lex_is_greedy_segment. Qed.
+Print Assumptions C04_segmentation.
+
+Theorem C04_segmentation_doc : forall s, lex_doc s = Seg.greedy_segment s.
+Proof. exact Seg.lex_doc_is_greedy_segment. Qed.
+Print Assumptions C04_segmentation_doc.
+
+(* the two greedy choices of the specification, read declaratively *)
+Theorem C04_keyword_choice_is_longest : forall s,
+  match Seg.longest_at doc_keywords s with
+  | Some (w, ty) => longest_keyword_at doc_keywords s (Z.of_nat (length w)) ty
+  | None => no_keyword_at doc_keywords s
+  end.
+Proof. exact Seg.keyword_choice_is_longest. Qed.
+Print Assumptions C04_keyword_choice_is_longest.
+
+Theorem C04_run_is_maximal : forall r,
+  r = Seg.run r ++ skipn (length (Seg.run r)) r /\
+  Seg.break_at (skipn (length (Seg.run r)) r) = true /\
+  forall a b, Seg.run r = a ++ b -> b <> [] -> Seg.break_at (b ++ skipn (length (Seg.run r)) r) = false.
+Proof. exact Seg.run_is_maximal. Qed.
+Print Assumptions C04_run_is_maximal.
+
+(* inside the model's scope (no string quote, line break, 注 comment, leading indentation) the run ends with the end of
+   text or an invalid character, never "outside the model" *)
+Theorem C04_segmentation_in_scope : forall s, Seg.in_scope s = true ->
+  fst (lex_impl s) = fst (Seg.greedy_segment s) /\ snd (lex_impl s) = snd (Seg.greedy_segment s) /\ Seg.proper_end (snd (lex_impl s)).
+Proof. exact Seg.lex_is_greedy_segment_in_scope. Qed.
+Print Assumptions C04_segmentation_in_scope.
+
+Example C04_ex_segmentation :                                                                      (* 价格不大于20 *)
+  Seg.in_scope [20215;26684;19981;22823;20110;50;48] = true /\
+  Seg.greedy_segment [20215;26684;19981;22823;20110;50;48] =
+    ([(g_TypeIdentifier, 0, 2, [20215;26684]); (g_TypeLogicLteW, 2, 5, []); (g_TypeIdentifier, 5, 7, [50;48]);
+      (g_TypeEOF, 7, 7, [])], EEof).
+Proof. exact Seg.seg_ex_greedy. Qed.
 
 (* Text between backticks is ONE identifier whose literal is the text, whatever keywords occur in it. *)
 Theorem C04_backtick_single_identifier : forall body r pos, forallb is_id_body body = true ->
